@@ -1022,3 +1022,21 @@ pub fn replay(case: &Value) -> i32 {
         0
     }
 }
+
+/// Canary: an outcome in which one call's consequences are missing must not be accepted.
+pub fn canary() -> Result<(), String> {
+    let scn = scenarios(false).into_iter().find(|s| s.name.starts_with("S2")).unwrap();
+    let lens: Vec<usize> = scn.threads.iter().map(Vec::len).collect();
+    let seq: BTreeSet<Outcome> = merges(&lens).iter().map(|o| run(&scn, None, Some(o)).outcome).collect();
+    let full = run(&scn, Some(&[]), None);
+    if !seq.contains(&full.outcome) {
+        return Err("sched canary: the default schedule is not accepted".into());
+    }
+    let mut crippled = scn.clone();
+    crippled.threads[1].clear();
+    let lost = run(&crippled, Some(&[]), None);
+    if seq.contains(&lost.outcome) {
+        return Err("sched canary: an execution that lost a call's consequences was accepted".into());
+    }
+    Ok(())
+}
